@@ -96,10 +96,12 @@ def namesNonVoid : List Str := [
 
 def lastIn (f : Str) (cs : List Char) : Bool := match f.getLast? with | some c => cs.contains c | none => false
 
-/-- the two `for f_name in …: expression = expression.replace(f_name + "(", f_name + "@(")` loops -/
+/-- the two `for f_name in …: expression = expression.replace(f_name + "(", f_name + "@(")` loops; the first
+    skips the keys ending in an operator character, comparison operators `> < %` (and `& $`) included, so that a
+    parenthesis directly after a comparison stays a parenthesis (fix 6716f85); the second skips `+ - * / ^` only -/
 def funcAt (e : Str) : Str :=
   let e := namesVoid.foldl (fun e f =>
-    if lastIn f ['+', '-', '*', '/', '^', '!'] then e else replace e (f ++ ['(']) (f ++ ['@', '('])) e
+    if lastIn f ['+', '-', '*', '/', '^', '!', '>', '<', '%', '&', '$'] then e else replace e (f ++ ['(']) (f ++ ['@', '('])) e
   namesNonVoid.foldl (fun e f =>
     if lastIn f ['+', '-', '*', '/', '^'] then e else replace e (f ++ ['(']) (f ++ ['@', '('])) e
 
@@ -549,6 +551,14 @@ def assign (tr : Tr α) (op1 op2 : Item α) : Res α Unit :=
             | .error e => (.error e, tr)
             | .ok tr1 => (.ok (), tr1)
       | _ => (.error "err:unsupported", tr)
+    else if l = ['x'] || l = ['y'] || l = ['z'] then
+      -- `for i in range(self.size()): self.setObsAnalyticalFeature(op1, i, float(op2))` (fix 144a468):
+      -- `float(op2)` is evaluated inside the loop, so nothing is evaluated (or raised) on an empty track
+      if tr.n = 0 then (.ok (), tr)
+      else
+        match toFloat op2 with
+        | .error e => (.error e, tr)
+        | .ok v => (.ok (), setCoord tr l (konst tr v))
     else
       match toFloat op2 with
       | .error e => (.error e, tr)
